@@ -1,4 +1,116 @@
-//! load_bytes + assemble + reload observations (C01, C05).
-pub fn do_load(_bytes: &[u8]) -> String {
-    "TODO".into()
+//! Loader observations: feeding instructions to the Loader consumer (C05) and
+//! load_bytes + assemble + reload (C01).
+use crate::itext::*;
+use rspirv::binary::{Assemble, Consumer, ParseAction};
+use rspirv::dr;
+
+fn insts(v: &[dr::Instruction]) -> String {
+    if v.is_empty() { "-".into() } else { v.iter().map(inst_text).collect::<Vec<_>>().join(";") }
+}
+fn oinst(v: &Option<dr::Instruction>) -> String {
+    v.as_ref().map(inst_text).unwrap_or("-".into())
+}
+
+pub fn module_text(m: &dr::Module) -> String {
+    let mut s = vec![format!("h={}", m.header.as_ref().map(header_text).unwrap_or("-".into()))];
+    s.push(format!("c={}", insts(&m.capabilities)));
+    s.push(format!("e={}", insts(&m.extensions)));
+    s.push(format!("i={}", insts(&m.ext_inst_imports)));
+    s.push(format!("mm={}", oinst(&m.memory_model)));
+    s.push(format!("ep={}", insts(&m.entry_points)));
+    s.push(format!("em={}", insts(&m.execution_modes)));
+    s.push(format!("ds={}", insts(&m.debug_string_source)));
+    s.push(format!("dn={}", insts(&m.debug_names)));
+    s.push(format!("dp={}", insts(&m.debug_module_processed)));
+    s.push(format!("an={}", insts(&m.annotations)));
+    s.push(format!("tg={}", insts(&m.types_global_values)));
+    for f in &m.functions {
+        let mut fs = vec![format!("d={}", oinst(&f.def)), format!("e={}", oinst(&f.end)), format!("p={}", insts(&f.parameters))];
+        for b in &f.blocks {
+            fs.push(format!("B{{l={} i={}}}", oinst(&b.label), insts(&b.instructions)));
+        }
+        s.push(format!("F{{{}}}", fs.join(" ")));
+    }
+    s.join(" ")
+}
+
+fn err_name(e: &dr::Error) -> String {
+    let s = format!("{:?}", e);
+    s.split('(').next().unwrap_or("").to_string()
+}
+
+/// feed instruction texts directly into a Loader through the Consumer trait
+pub fn do_feed(texts: &[&str]) -> String {
+    let parsed: Option<Vec<dr::Instruction>> = texts.iter().map(|t| parse_inst(t)).collect();
+    let list = match parsed {
+        Some(l) => l,
+        None => return "BUILDERR".into(),
+    };
+    let r = std::panic::catch_unwind(move || {
+        let mut loader = dr::Loader::new();
+        let act = |a: ParseAction| -> Option<String> {
+            match a {
+                ParseAction::Continue => None,
+                ParseAction::Stop => Some("STOP".into()),
+                ParseAction::Error(e) => Some(match e.downcast_ref::<dr::Error>() {
+                    Some(le) => err_name(le),
+                    None => "OTHER".into(),
+                }),
+            }
+        };
+        if let Some(e) = act(loader.initialize()) {
+            return format!("ERR:{}@init", e);
+        }
+        for (k, i) in list.into_iter().enumerate() {
+            if let Some(e) = act(loader.consume_instruction(i)) {
+                return format!("ERR:{}@{}", e, k);
+            }
+        }
+        if let Some(e) = act(loader.finalize()) {
+            return format!("ERR:{}@end", e);
+        }
+        format!("OK {}", module_text(&loader.module()))
+    });
+    r.unwrap_or_else(|_| "PANIC".into())
+}
+
+pub fn do_load(bytes: &[u8]) -> String {
+    let r = std::panic::catch_unwind(|| match dr::load_bytes(bytes) {
+        Ok(m) => {
+            let words = m.assemble();
+            let again = dr::load_words(&words);
+            let re = match again {
+                Ok(m2) => (module_text(&m2) == module_text(&m)).to_string(),
+                Err(e) => format!("E:{}", state_text(&e)),
+            };
+            // load_words on the same input must agree with load_bytes
+            let lw = if bytes.len() % 4 == 0 {
+                let ws: Vec<u32> = bytes.chunks_exact(4).map(|c| u32::from_le_bytes([c[0], c[1], c[2], c[3]])).collect();
+                match dr::load_words(&ws) {
+                    Ok(m3) => (module_text(&m3) == module_text(&m)).to_string(),
+                    Err(e) => format!("E:{}", state_text(&e)),
+                }
+            } else {
+                "n/a".into()
+            };
+            format!(
+                "OK {} A={} R={} LW={}",
+                module_text(&m),
+                words.iter().map(|w| format!("{:x}", w)).collect::<Vec<_>>().join(","),
+                re,
+                lw
+            )
+        }
+        Err(e) => {
+            let s = match &e {
+                rspirv::binary::ParseState::ConsumerError(ce) => match ce.downcast_ref::<dr::Error>() {
+                    Some(le) => format!("LERR:{}", err_name(le)),
+                    None => state_text(&e),
+                },
+                _ => state_text(&e),
+            };
+            format!("E:{}", s)
+        }
+    });
+    r.unwrap_or_else(|_| "PANIC".into())
 }
